@@ -115,7 +115,9 @@ def corruptions(tier):
             yield ("truncate", f"{label}@{k}", "\n".join(L[:k]) + "\n")
         for i, l in enumerate(L):
             if l.strip().lower().startswith("end"):
-                yield ("delete-end", f"{label}@{i}", "\n".join(L[:i] + L[i + 1:]) + "\n")
+                # ENDs of executable constructs (do, if, select ...) are not tracked by a documentation tool
+                tracked = not re.match(r"end\s*(do|if|select|where|forall|critical|team)\b", l.strip().lower())
+                yield ("delete-end" if tracked else "delete-end-exec", f"{label}@{i}", "\n".join(L[:i] + L[i + 1:]) + "\n")
             if l.strip().lower() == "contains":
                 yield ("dup-contains", f"{label}@{i}", "\n".join(L[:i + 1] + ["contains"] + L[i + 1:]) + "\n")
                 yield ("contains-first", f"{label}@{i}", "\n".join(L[:1] + ["contains"] + L[1:i] + L[i + 1:]) + "\n")
@@ -277,6 +279,11 @@ def run_case(st: Stats, case):
         if got[2] != base[2]:
             bad += 1
             st.violation("project-lists-changed", stratum, dict(feats, accepted=accepted), inp, got[2], base[2])
+    if accepted and kind in ("extra-end", "delete-end") and name not in r.log:
+        # one END too many / too few: the file cannot be right; FORD may recover from it, but never without naming the file in a diagnostic
+        bad += 1
+        st.violation("unbalanced-file-accepted", stratum, feats, inp, sorted((c, e.name) for c in ("modules", "procedures", "programs", "types") for e in getattr(r.project, c, []) if e.filename == name),
+                     "the file is named in a diagnostic (and rejected, or parsed with the offending statement reported)")
     if not accepted:
         if name not in r.log:
             bad += 1
